@@ -1222,9 +1222,6 @@ class TermCanvas(Canvas):
         """
         Set graphics rendition.
         """
-        if attrs[-1] == 0:
-            self.attrspec = None
-
         attributes = set()
         if self.attrspec is None:
             fg = bg = None
